@@ -849,3 +849,48 @@ def _o():
 def _o():
     H = I("py_ecc.bls.hash")
     return (H.hkdf_expand, [bytes(range(32)), b"info", 48], {})
+
+
+# ------------------------------------------------------------------ the caller's own containers and buffers between calls (self-checking)
+@op("INVARIANT:FastAggregateVerify-sees-in-place-change-of-the-key-list", 3)
+def _o():
+    def f(pk1, pk2, sig):
+        C = I("py_ecc.bls").G2ProofOfPossession
+        L = [pk1, pk2]
+        v1 = C.FastAggregateVerify(L, b"msg one", sig)
+        L[1] = pk1
+        v2 = C.FastAggregateVerify(L, b"msg one", sig)
+        L[1] = pk2
+        v3 = C.FastAggregateVerify(L, b"msg one", sig)
+        return ("C20-INVARIANT", (v1, v2, v3) == (True, False, True))
+    return (f, [LIT["pk1"], LIT["pk2"], LIT["aggsame:pop"]], {})
+
+
+@op("INVARIANT:Aggregate-refuses-every-extension-of-a-refused-list", 1)
+def _o():
+    def f(s1, s2):
+        C = I("py_ecc.bls").G2Basic
+        bad = b"\x9a" + b"\x11" * 95
+        outs = []
+        for lst in ([s1, bad], [s1, bad, s2], [s1, bad], [s1, s2, bad, s1]):
+            try:
+                C.Aggregate(lst)
+                outs.append("returned")
+            except Exception:  # noqa: BLE001
+                outs.append("raised")
+        ok = C.Aggregate([s1, s2])
+        return ("C20-INVARIANT", outs == ["raised"] * 4 and C.Aggregate([s1, s2, s1]) != ok and C.Aggregate([s1, s2]) == ok)
+    return (f, [LIT["sig1:basic"], LIT["sig2:basic"]], {})
+
+
+@op("INVARIANT:hash_to_G2-distinguishes-shifted-message-and-tag", 2)
+def _o():
+    def f():
+        H = I("py_ecc.bls.hash_to_curve")
+        M = I("py_ecc.optimized_bls12_381")
+        T = b"BLS_SIG_BLS12381G2_XMD:SHA-256_SSWU_RO_NUL_"
+        a = H.hash_to_G2(b"transfer:42;ctx=A", T, hashlib.sha256)
+        b = H.hash_to_G2(b"transfer:42;", b"ctx=A" + T, hashlib.sha256)
+        c = H.hash_to_G2(b"transfer:42;ctx=A", T, hashlib.sha256)
+        return ("C20-INVARIANT", (not M.eq(a, b)) and M.eq(a, c))
+    return (f, [], {})
